@@ -69,6 +69,10 @@ def reset_hash(eng, st):
 
 
 state_contracts = {
+ "Expression.get_hash": dict(where=f"{E}:Expression.get_hash", params={"self": REF, "data": OBJ}, returns=STR, classes={"self": "Expression"},
+    # the hash is the memoised one or the structural hash; it never depends on the serialised bytes passed by the backend
+    ensures=["result == (val(old(self._hash)) if old(self._hash) != None else calc_hash(self))", "self._hash == Some(result)"]),
+ "Expression._calc_hash": dict(where=f"{E}:Expression._calc_hash", params={"self": REF}, returns=STR, pure="calc_hash"),
  # ---- pickling state round trip: every identity component is written to the state under a fixed key and read back from that key
  "Expression.__getstate__": dict(where=f"{E}:Expression.__getstate__", params={"self": REF}, returns=Map(STR, OBJ),
     ensures=["forall(k, Str, k not in result)"]),
@@ -96,7 +100,7 @@ STATE_MODULE = Module(
     prelude="(declare-sort Opts 0)",
     fields={"task_name": STR, "args": OBJ, "kwargs": OBJ, "_options": "Opts", "_export_options": Set(STR), "_length": Opt(INT),
             "call_hash": Opt(STR), "_hash": Opt(STR), "_upstreams": OBJ},
-    ufuns={"ser": ([OBJ], OBJ), "deser": ([OBJ], OBJ)},
+    ufuns={"ser": ([OBJ], OBJ), "deser": ([OBJ], OBJ), "calc_hash": ([REF], STR)},
     axioms=["(forall ((x Obj)) (! (= (|deser| (|ser| x)) x) :pattern ((|ser| x))))"],   # A-PICKLE: registry.deserialize(registry.serialize(v)) == v
     sortnames={"Opts": "Opts"}, contracts=state_contracts,
 )
@@ -111,7 +115,7 @@ MODULE = Module(
 )
 VERIFY = ["TaskExpression._calc_hash", "SchedulerExpression._calc_hash", "SimpleExpression._calc_hash", "ValueExpression._calc_hash"]
 
-MODULES = [(MODULE, VERIFY), (STATE_MODULE, ["Expression.__getstate__", "Expression.__setstate__", "TaskExpression.__getstate__", "TaskExpression.__setstate__"])]
+MODULES = [(MODULE, VERIFY), (STATE_MODULE, ["Expression.get_hash", "Expression.__getstate__", "Expression.__setstate__", "TaskExpression.__getstate__", "TaskExpression.__setstate__"])]
 
 
 def bounded_exprs(tier, seed):
@@ -119,7 +123,17 @@ def bounded_exprs(tier, seed):
     return [bounded.run("C18", "generated-expressions", rule="all pairs of 49 generated expressions of the four kinds on the real classes: equal hash only for the same kind/name/arguments/options/exported options; pickle round trip of each")]
 
 
-EXTRA_CHECKS = [bounded_exprs]
+def override_scan(tier, seed):
+    """get_hash is defined once, on the base class: no expression class overrides it"""
+    import ast as _ast
+    from pvc import extract
+    tree, _ = extract.parse_file(E)
+    owners = [c.name for c in tree.body if isinstance(c, _ast.ClassDef) for f in c.body if isinstance(f, _ast.FunctionDef) and f.name == "get_hash"]
+    ok = owners == ["Expression"]
+    return [Result("C18/scan[get_hash-defined-only-on-Expression]", "finite", "proved" if ok else "refuted", "(class scan of redun/expression.py)", 0, solver="python", detail={"classes_defining_get_hash": owners, "stage": 0})]
+
+
+EXTRA_CHECKS = [bounded_exprs, override_scan]
 EXPECTED_MIN_OBLIGATIONS = 35
 TRUSTED = ["A-HASH + C14 (hash_struct injective)", "C15 (argument hash separates the abstract argument view)", "A-PICKLE (pickle_dumps injective on option dicts; deserialize(serialize(v)) == v)", "A-SORT", "A-DICT (one empty dict)"]
 ASSUMPTIONS = ["hash_struct, hash_arguments, hash_bytes(pickle_dumps(.)) and sorted(set) are injective functions of their abstract arguments (A-HASH, C14, C15, A-PICKLE, A-SORT)",
